@@ -7,7 +7,8 @@ The real `tak.self_play.play_one_game` is run in-process against
     threshold, ply limit hit exactly / exceeded by one), the children being built with the real
     `Position.move`, dyadic probabilities / values, and the sampler's draw forced or recorded
     by wrapping `torch.multinomial`;
-  * the real `MCTS` with harness evaluators (uniform, random).
+  * the real `MCTS` with harness evaluators (uniform, random, and a deterministic "shuffler" that
+    steers games into recurring boards), each engine object playing several games in a row.
 Every engine call is recorded from outside (`Recorder`).  For every game the harness sends
   `selfplay ok   <cfg> <implementation transcript + observer's trace + Transcript.results>`
   `selfplay play <cfg> <recorded engine answers>`
@@ -37,11 +38,15 @@ RULE = (
     "terminal ply T, 0, -1, large; resignation injected at a random ply for White and Black to move, claim and give-up, "
     "|v0| == threshold and one ulp-ish (2^-20) below, thresholds 1/2, 3/4, 0.95, 1, 0, -1/2; candidate subsets with dyadic "
     "probabilities, forced or one-hot draws, |value| up to simulations. Real MCTS: uniform and random evaluators, sizes "
-    "3..5 (6 thorough), budgets 1..32, thresholds and limits varied. Non-trivial = distinct (cfg, realised line); the "
+    "3..5 (6 thorough), budgets 1..32, thresholds and limits varied; plus a deterministic 'shuffler' evaluator (a pure "
+    "function of the token encoding, like a network) that places 2..5 flats and then only slides them over empty squares, so "
+    "that boards recur and the ply limit is what ends the game (counted: games-with-a-recurring-board); every engine object "
+    "plays 1..3 games in a row (engine lifetime = many games, as in run_job; counted: engine-game-no). A game that asks for "
+    "more than ply_limit+2 searches is stopped by the recorder and TranscriptOK is evaluated on the positions it searched. Non-trivial = distinct (cfg, realised line); the "
     "histogram counts endings, sizes, engine kinds."
 )
 TRUSTED = [
-    "the driver's adjudication is a local Lean copy of Position.winner() (Model/Winner.lean of C02 had not landed); it is "
+    "the driver's adjudication is winnerOutcome = Impl.winner of Model/Winner.lean (C02 proves Impl.winner = Spec.outcome); it is "
     "tied to the implementation on every position that ends a game or is recorded (op `selfplay outcome`)",
     "modelled, not verified: torch.multinomial returns an index below len(probs); numpy/torch float32 -> Python float is exact",
 ]
@@ -198,6 +203,10 @@ class Scripted:
         return torch.tensor(tree._probs, dtype=torch.float32)
 
 
+class GameDidNotStop(Exception):
+    pass
+
+
 class Recorder:
     """wraps any engine; notes every answer the way play_one_game can see it"""
 
@@ -206,6 +215,8 @@ class Recorder:
         self.answers = []
         self.awaiting = False
         self.engine_failed = False  # the engine (or the sampler on the engine's probabilities) raised
+        self.max_calls = None  # give up on a game that asks for more searches than this
+        self.ran_away = False
 
     @property
     def stats(self):
@@ -217,6 +228,10 @@ class Recorder:
 
     def analyze(self, pos):
         self.awaiting = False
+        if self.max_calls is not None and len(self.answers) >= self.max_calls:
+            # a game never needs more than ply_limit + 1 searches; this one does not stop
+            self.ran_away = True
+            raise GameDidNotStop()
         try:
             tree = self.inner.analyze(pos)
         except Exception:
@@ -311,6 +326,63 @@ class RandomEval:
         return out, self.rng.randrange(-16, 17) / 16.0
 
 
+class Shuffler:
+    """A deterministic evaluator that, like a network, is a pure function of what the network
+    sees (the token encoding: board, reserves, side to move -- not the ply).  While fewer than
+    `stones` pieces are on the board it wants to place a flat; after that it only wants to
+    SLIDE, so the game walks through the finite set of arrangements of those few pieces and
+    comes back to boards it has been on (no road is possible with so few pieces): long games up
+    to the ply limit with few distinct boards.  Which move it prefers is a hash of (salt,
+    encoding, move); `focus` of the prior mass goes to the preferred move, the rest is spread
+    over the other moves of the same kind (well above the search's cut-off)."""
+
+    def __init__(self, salt, stones, focus, value):
+        self.salt = salt
+        self.stones = stones
+        self.focus = focus
+        self.value = value
+
+    def evaluate(self, pos):
+        import zlib
+
+        import tak
+        import torch
+        from tak.model import encoding
+
+        key = bytes(encoding.encode(pos, include_sentinel=False))
+        on_board = sum(len(sq) for sq in pos.board)
+        want_slide = on_board >= self.stones
+        cands, quiet = [], []
+        for m in pos.all_moves():
+            if m.type.is_slide() != want_slide or m.type in (tak.MoveType.PLACE_STANDING, tak.MoveType.PLACE_CAPSTONE):
+                continue
+            try:
+                pos.move(m)
+            except tak.IllegalMove:
+                continue
+            cands.append(m)
+            if want_slide:
+                dx, dy = m.type.direction()
+                if all(len(pos[m.x + dx * (j + 1), m.y + dy * (j + 1)]) == 0 for j in range(len(m.slides))):
+                    quiet.append(m)  # covers nothing: every piece stays a top piece and keeps moving
+        if quiet:
+            cands = quiet
+        out = torch.zeros(encoding.MAX_MOVE_ID)
+        if not cands:  # nothing of the wanted kind: no opinion
+            n = encoding.n_moves_for_size(pos.size)
+            out[:n] = 1.0 / n
+            return out, self.value
+        ids = [encoding.encode_move(pos.size, m) for m in cands]
+        best = max(ids, key=lambda i: zlib.crc32(key + b"/%d/%d" % (self.salt, i)))
+        if len(ids) == 1:
+            out[best] = 1.0
+        else:
+            for i in ids:
+                out[i] = (1.0 - self.focus) / (len(ids) - 1)
+            out[best] = self.focus
+        return out, self.value
+
+
 # ------------------------------------------------------------------ running one case
 
 
@@ -324,16 +396,20 @@ def build_engine(case, fallback=None):
     from tak import mcts
 
     m = case["mcts"]
-    ev = Uniform(float(Fraction(m["value"]))) if m["evaluator"] == "uniform" else RandomEval(m["eval_seed"])
+    if m["evaluator"] == "uniform":
+        ev = Uniform(float(Fraction(m["value"])))
+    elif m["evaluator"] == "shuffler":
+        ev = Shuffler(m["eval_seed"], m["stones"], float(Fraction(m["focus"])), float(Fraction(m["value"])))
+    else:
+        ev = RandomEval(m["eval_seed"])
     return mcts.MCTS(mcts.Config(time_limit=0, simulation_limit=m["sims"], C=m.get("C", 4)), ev)
 
 
-def run_case(case, fallback=None):
-    """play one game with the real code; returns what was observed"""
+def play(engine, c, torch_seed=None):
+    """one game of the real play_one_game on `engine` (which may have played before)"""
     import torch
     from tak import self_play
 
-    c = case["cfg"]
     cfg = self_play.SelfPlayConfig(
         engine_factory=None,
         size=c["size"],
@@ -341,26 +417,60 @@ def run_case(case, fallback=None):
         resignation_threshold=float(Fraction(c["threshold"])),
         ply_limit=c["ply_limit"],
     )
-    rec = Recorder(build_engine(case, fallback))
-    if case["kind"] == "mcts":
-        torch.manual_seed(case["mcts"]["torch_seed"])
+    rec = Recorder(engine)
+    rec.max_calls = max(int(c["ply_limit"]), -1) + 3
+    if torch_seed is not None:
+        torch.manual_seed(torch_seed)
+    log, crash = None, None
+    with sampler_hook(rec):
+        try:
+            log = self_play.play_one_game(cfg, rec)
+        except Exception as e:  # the game function has no domain error of its own
+            crash = type(e).__name__
+    return rec, log, crash
+
+
+def run_case(case, fallback=None, engine=None):
+    """play one game with the real code; returns what was observed.
+    `case["mcts"]["before"]` lists the games (cfg, torch seed) the same engine object played
+    earlier in its life, as a worker's engine does in run_job; they are played again first
+    unless the caller hands in the engine in that state."""
+    if engine is None:
+        engine = build_engine(case, fallback)
+        if case["kind"] == "mcts":
+            for b in case["mcts"].get("before", []):
+                play(engine, b["cfg"], b["torch_seed"])
+    rec, log, crash = play(engine, case["cfg"], case["mcts"]["torch_seed"] if case["kind"] == "mcts" else None)
     o = Obs()
     o.case = case
     o.rec = rec
-    o.log = None
-    o.crash = None
-    with sampler_hook(rec):
-        try:
-            o.log = self_play.play_one_game(cfg, rec)
-        except Exception as e:  # the game function has no domain error of its own
-            o.crash = type(e).__name__
+    o.log = log
+    o.crash = crash
+    o.engine = engine
     o.labels = None
     if o.log is not None:
         try:
             o.labels = list(o.log.results)
         except Exception as e:
             o.crash = "results:" + type(e).__name__
+    elif rec.ran_away:
+        # the game did not stop and play_one_game's own log is lost with its frame: what the
+        # driver is shown instead is what the engine was asked (the positions searched, with
+        # their candidates, probabilities and values), recorded as a game without a winner
+        o.log = SearchedPositions(rec)
+        o.labels = [0] * len(rec.answers)
     return o
+
+
+class SearchedPositions:
+    """stand-in for the transcript of a game that never returned: the searches it asked for"""
+
+    def __init__(self, rec):
+        self.positions = [a["pos"] for a in rec.answers]
+        self.moves = [[m for m, _ in a["children"]] for a in rec.answers]
+        self.probs = [a["probs"] or [] for a in rec.answers]
+        self.values = [Fraction(fr(a["value"]) or 0) / max(1, int(a["sims"])) for a in rec.answers]
+        self.result = None
 
 
 def realised_line(o):
@@ -699,33 +809,82 @@ def scripted_cases(ctx, lines_by_size):
 
 
 def mcts_cases(ctx):
+    """games of the real search; each item is a SESSION: a list of (label, case) played one
+    after the other by ONE engine object (a worker keeps its engine for all its games)"""
     rng = ctx.rng
     if ctx.thorough:
         plan = [(3, 80, [1, 2, 8, 32, 64]), (4, 30, [1, 2, 8, 16]), (5, 8, [1, 2, 4]), (6, 2, [1, 2])]
     else:
-        plan = [(3, 50, [1, 2, 8, 32]), (4, 14, [1, 2, 8]), (5, 3, [1, 2])]
+        plan = [(3, 44, [1, 2, 8, 32]), (4, 12, [1, 2, 8]), (5, 3, [1, 2])]
     for size, n, budgets in plan:
-        for g in range(n):
+        g = 0
+        while g < n:
             sims = budgets[g % len(budgets)]
-            thr = rng.choice(["1/2", "3/4", str(Fraction(0.95)), "2"])
-            if size == 3:
-                lim = rng.choice([0, 1, 5, 12, 30, 100])
-            elif size == 4:
-                lim = rng.choice([1, 6, 14, 40])
-            else:
-                lim = rng.choice([0, 3, 6]) if size == 6 or not ctx.thorough else rng.choice([3, 8, 16])
             evaluator = "uniform" if g % 2 == 0 else "random"
-            yield "mcts:%s" % evaluator, dict(
-                kind="mcts",
-                cfg=dict(size=size, threshold=thr, ply_limit=lim),
-                mcts=dict(
-                    sims=sims,
-                    evaluator=evaluator,
-                    value=rng.choice(["0", "1/4", "-1/4", "1/2"]),
-                    eval_seed=rng.randrange(1 << 30),
-                    torch_seed=rng.randrange(1 << 30),
-                ),
+            spec = dict(
+                sims=sims,
+                evaluator=evaluator,
+                value=rng.choice(["0", "1/4", "-1/4", "1/2"]),
+                eval_seed=rng.randrange(1 << 30),
             )
+            games = rng.choice([1, 1, 2, 3]) if size <= 4 else 1
+            session = []
+            for _ in range(games):
+                thr = rng.choice(["1/2", "3/4", str(Fraction(0.95)), "2"])
+                if size == 3:
+                    lim = rng.choice([0, 1, 5, 12, 30, 100])
+                elif size == 4:
+                    lim = rng.choice([1, 6, 14, 40])
+                else:
+                    lim = rng.choice([0, 3, 6]) if size == 6 or not ctx.thorough else rng.choice([3, 8, 16])
+                session.append(("mcts:%s" % evaluator, dict(size=size, threshold=thr, ply_limit=lim), rng.randrange(1 << 30)))
+                g += 1
+            yield spec, session
+    # steered games: few pieces, slides only -> boards recur, the ply limit is what ends the game;
+    # every engine plays several such games
+    if ctx.thorough:
+        steer = [(3, 14), (4, 5)]
+    else:
+        steer = [(3, 8), (4, 2)]
+    for size, n in steer:
+        for k in range(n):
+            spec = dict(
+                sims=rng.choice([1, 2, 4]),
+                evaluator="shuffler",
+                value=rng.choice(["0", "1/8", "-1/8"]),
+                eval_seed=rng.randrange(1 << 30),
+                stones=rng.choice([2, 2, 3, 4]) if size == 3 else rng.choice([2, 4, 5]),
+                focus=rng.choice(["1", "63/64", "7/8"]),
+            )
+            session = []
+            for j in range(rng.choice([2, 3])):
+                lim = rng.choice([8, 16, 24, 40]) if size == 3 else rng.choice([10, 20])
+                session.append(("mcts:shuffler", dict(size=size, threshold=rng.choice(["3/4", "2"]), ply_limit=lim), rng.randrange(1 << 30)))
+            yield spec, session
+
+
+def run_sessions(ctx, sessions):
+    """play every session on one engine each; returns the labelled observations"""
+    out = []
+    for spec, session in sessions:
+        engine, before = None, []
+        for label, cfg, torch_seed in session:
+            m = dict(spec)
+            m["torch_seed"] = torch_seed
+            m["before"] = list(before)
+            case = dict(kind="mcts", cfg=cfg, mcts=m)
+            if engine is None:
+                engine = build_engine(case)
+            o = run_case(case, engine=engine)
+            ctx.count("engine-game-no:%d" % min(len(before) + 1, 3))
+            if o.log is not None:
+                boards = {ser.pos_str(p).split(" ", 6)[6] + str(p.ply % 2) for p in o.log.positions}
+                if len(boards) < len(o.log.positions):
+                    ctx.count("games-with-a-recurring-board")
+                    ctx.count("recurring-boards", len(o.log.positions) - len(boards))
+            out.append((label, o))
+            before.append(dict(cfg=cfg, torch_seed=torch_seed))
+    return out
 
 
 # ------------------------------------------------------------------ protocol entry points
@@ -740,6 +899,14 @@ def replay_payload(o):
 
 
 def describe(o, r):
+    if o.rec.ran_away:
+        c = o.case["cfg"]
+        return (
+            "size=%d ply_limit=%d engine=%s (game no. %d of this engine): play_one_game did not stop -- it asked for search no. %d; "
+            "plies of the positions searched: %s; TranscriptOK on the searched positions -> driver says %s"
+            % (c["size"], c["ply_limit"], o.case["kind"], len(o.case.get("mcts", {}).get("before", [])) + 1,
+               len(o.rec.answers) + 1, [a["pos"].ply for a in o.rec.answers], r["verdict"])
+        )
     c = o.case["cfg"]
     n = len(o.log.positions) if o.log is not None else 0
     res = color_tok(o.log.result) if o.log is not None else "-"
@@ -786,11 +953,21 @@ def outcome_tie(ctx, observations):
     return divs
 
 
-def process(ctx, labelled_cases):
-    """run, evaluate, book-keep; returns (divergences, failures[(obs, result)])"""
+def settle_runaway(o, r):
+    """a game that asked for more searches than its ply limit allows"""
+    if r["verdict"] == "ok":  # cannot be: that many positions in a row, all within the limit, yet a legal chain
+        r["verdict"] = "fail:live:%d:unfinished" % len(o.rec.answers)
+    r["diffs"] = []  # there is no transcript of the implementation to diff with the model's
+
+
+def process(ctx, labelled_cases=(), labelled_observations=()):
+    """run, evaluate, book-keep; returns the divergences"""
     observations, labels = [], []
     for label, case in labelled_cases:
         observations.append(run_case(case))
+        labels.append(label)
+    for label, o in labelled_observations:
+        observations.append(o)
         labels.append(label)
     results = evaluate(ctx, observations)
     divs, fails = [], []
@@ -808,6 +985,10 @@ def process(ctx, labelled_cases):
             ctx.count("plies", len(o.log.positions))
             ctx.nontrivial(str(sorted(o.case["cfg"].items())) + " ".join(transcript_tokens(o.log)))
         bad = r["verdict"] != "ok"
+        if o.rec.ran_away:
+            ctx.count("game-did-not-stop")
+            settle_runaway(o, r)
+            bad = True
         if bad and r["verdict"].startswith("crash") and o.rec.engine_failed:
             # the exception came out of the engine, not out of play_one_game (C08-C10's business)
             ctx.count("excused:engine-raised")
@@ -853,7 +1034,7 @@ def tie(ctx):
         t1 = time.time()
         divs += process(ctx, list(scripted_cases(ctx, lines_by_size)))
         t2 = time.time()
-        divs += process(ctx, list(mcts_cases(ctx)))
+        divs += process(ctx, labelled_observations=run_sessions(ctx, list(mcts_cases(ctx))))
         ctx.note("round %d: line search %.1fs, scripted games %.1fs, real-search games %.1fs" % (rnd, t1 - t0, t2 - t1, time.time() - t2))
     return divs
 
@@ -884,6 +1065,8 @@ def replay(ctx, data):
         case["mcts"] = rp["mcts"]
     o = run_case(case)
     r = evaluate(ctx, [o])[0]
+    if o.rec.ran_away:
+        settle_runaway(o, r)
     ctx.count("replayed:" + (classify_replay(o) or "?"))
     if r["verdict"] == "ok" and not r["diffs"]:
         return []
